@@ -143,6 +143,15 @@ type Client struct {
 
 	subscribedAccts    map[[33]byte]*acctSubscription
 	subscribedAcctsMtx sync.Mutex
+
+	// reconnecting is the number of HandleServerShutdown calls that are
+	// currently in progress (they can be nested). reconnectDirty is set if
+	// the server announced another shutdown while a re-connect was in
+	// progress, which means that re-connect needs to start over. Both are
+	// guarded by reconnectMtx.
+	reconnecting   int
+	reconnectDirty bool
+	reconnectMtx   sync.Mutex
 }
 
 // NewClient returns a new instance to initiate auctions with.
@@ -1163,6 +1172,25 @@ func (c *Client) readIncomingStream() { // nolint:gocyclo
 			// The server is shutting down. No need to forward this,
 			// we can just shutdown the stream and try to reconnect.
 			case auctioneerrpc.SubscribeError_SERVER_SHUTDOWN:
+				// If a re-connect is in progress on another
+				// goroutine, two of them would get in each
+				// other's way. We only tear down the stream,
+				// which aborts what the other goroutine is
+				// doing on it, and tell it to start over.
+				c.reconnectMtx.Lock()
+				if c.reconnecting > 0 {
+					c.reconnectDirty = true
+					c.reconnectMtx.Unlock()
+
+					err := c.closeStream()
+					if err != nil {
+						log.Errorf("Error closing "+
+							"stream: %v", err)
+					}
+					return
+				}
+				c.reconnectMtx.Unlock()
+
 				err := c.HandleServerShutdown(nil)
 				if err != nil {
 					select {
@@ -1245,6 +1273,34 @@ func (c *Client) sendToSubscription(traderAccountKey []byte,
 // incremental backoff time we wait between trials. If the connection succeeds,
 // all previous subscriptions are sent again.
 func (c *Client) HandleServerShutdown(err error) error {
+	c.reconnectMtx.Lock()
+	c.reconnecting++
+	c.reconnectMtx.Unlock()
+
+	for {
+		err = c.reconnect(err)
+
+		// If the server sent another shutdown notice while we were
+		// busy re-connecting, the stream we just set up is gone again
+		// and the goroutine that read the notice left it to us to
+		// start over.
+		c.reconnectMtx.Lock()
+		if c.reconnectDirty {
+			c.reconnectDirty = false
+			c.reconnectMtx.Unlock()
+			err = nil
+			continue
+		}
+		c.reconnecting--
+		c.reconnectMtx.Unlock()
+
+		return err
+	}
+}
+
+// reconnect closes the current stream, opens a new one and subscribes all
+// accounts again.
+func (c *Client) reconnect(err error) error {
 	if err == nil {
 		log.Infof("Server is shutting down, will reconnect in %v",
 			c.cfg.MinBackoff)
